@@ -397,6 +397,12 @@ func TestVerifC16WriterSteps(t *testing.T) {
 			lc.DisableLedgerLRUCache = true
 			lc.TxPoolSize, lc.VerifiedTranscationsCacheSize = 100, 100
 			base := cpRestore(c, a.genesis, lc, cpTar(genuine), label, src)
+			if desc, collide := c16KvCollision(gdoc); collide && base.Stage == "build-trie" {
+				c.Violation("kv-preimage-boundary-shift", map[string]any{"manifestation": "an HONEST catchpoint file is rejected by the restoring node because the state holds two legal boxes with equal key||value", "boxes": desc, "round": rnd, "label": label, "stage": base.Stage, "error": fmt.Sprint(base.Err), "config": cfg.String()})
+				cpRemove(base.Dir)
+				restoredRounds--
+				continue
+			}
 			if base.Stage != "adopted" {
 				c.Violation("genuine-file-rejected", map[string]any{"round": rnd, "label": label, "stage": base.Stage, "error": fmt.Sprint(base.Err), "config": cfg.String()})
 				cpRemove(base.Dir)
